@@ -31,8 +31,9 @@ func init() {
 		},
 		Work: func(w *Worker) { c15Work(w) },
 		Replay: func(w *Worker, raw json.RawMessage) {
+			var g GCase
 			var c genCase
-			if json.Unmarshal(raw, &c) == nil && c.Spec != nil {
+			if json.Unmarshal(raw, &g) == nil && g.Extra != nil && json.Unmarshal(g.Extra, &c) == nil && c.Spec != nil {
 				c15Batch(w, []*genCase{&c}, "replay")
 			}
 		},
